@@ -4,6 +4,8 @@ CONSTANTS
   Lens <- Lens_C06
   Dts = {1}
   T0 = 1000
+  MaxSw = 0
+  ResetCfgs <- NoReset
   MaxRecs = 3
   MaxRuns = 3
   MaxTrig = 1
